@@ -28,6 +28,7 @@ void tape_set_src(const std::vector<std::pair<int, bytes_t> > &e) { g_src = e; g
 long long tape_src_calls() { return g_src_calls; }
 long long tape_mask_calls() { long long r = g_mask_calls; g_mask_calls = 0; return r; }
 void tape_reset_counters() { g_src_calls = 0; g_mask_calls = 0; g_used.clear(); g_src_log.clear(); }
+void tape_reset_all() { tape_reset_counters(); g_src.clear(); g_src_pos = 0; g_src_active = false; }
 std::string src_log_json() { std::string r = "[" + g_src_log + "]"; g_src_log.clear(); return r; }
 #ifdef DRV_SYSRNG
 static thread_local std::string g_sys_log_fwd;
